@@ -221,6 +221,18 @@ claim("C17", "exploration",
       "forking server (other process).",
       "DESIGN.md §4 C17")
 
+claim("C02", "exploration",
+      "model-based history testing (Hypothesis): generated operation histories applied to proxies and to a local twin world; "
+      "per-step outcome / result comparison and full canonical state snapshots of every target",
+      "The operation table is derived from what netrefs forward (attributes, methods by name, operators in both orders, "
+      "in-place and unary operators, comparisons, indexing and slicing, iteration plain and buffered, len/str/repr/hash/"
+      "bool/dir/format, isinstance/__class__, call, with-blocks), over builtin containers, generators, files and harness "
+      "classes incl. inherited methods and two same-named classes, under three configurations. Every mismatch found on "
+      "the pinned tree was triaged into a repair, a known finding, or a documented harness restriction (DESIGN.md §7).",
+      "Identity-dependent observables (default repr addresses, identity hashes, set iteration order) are normalised; "
+      "names the active policy denies are not generated; type(p)/id(p)/`is` are outside the property.",
+      "DESIGN.md §4 C02")
+
 NOT_YET = "check not built yet in this revision (see DESIGN.md §8 build order)"
 
 
